@@ -259,6 +259,14 @@ impl<'r, TC: ModelCfg> HistVisitor<TC> for V7<'r> {
                                 cands.push((format!("epoch_of_{j}_at_{i}"), c));
                             }
                         }
+                        for j in 0..k {
+                            if i != j {
+                                // entry i overwritten by a copy of entry j (length unchanged: a duplicate plus a gap)
+                                let mut c = honest.clone();
+                                c.update_proofs[i] = honest.update_proofs[j].clone();
+                                cands.push((format!("overwritten_by_copy_of_{j}_at_{i}"), c));
+                            }
+                        }
                         let mut c = honest.clone();
                         c.update_proofs[i].value = AkdValue(vec![]);
                         cands.push((format!("tombstone_at_{i}"), c));
